@@ -124,7 +124,7 @@ TEXTS = ["x", "hello world", "a<b", "a&b", "\"q\"", "it's", ">", "</p>", "&amp;"
          "100%", "<", "&", "<!>", "a < b && c > d", " ", "x y", "&quot;", "<br>", "1", "", "", " "]
 RAW_TEXTS = ["x", "a<b", "a>b", "p{color:red}", "if (a < b && c) { d() }", "\"q\"", "it's", "<!-- c -->", "a\nb", "é€😀",
              "<", "<b>", "", "]]>", "1 << 2"]
-TEXTAREA_TEXTS = ["x", "a<b", "a>b", "\"q\"", "line\nline", "é", "<b>bold</b", ""]
+TEXTAREA_TEXTS = ["x", "a<b", "a>b", "\"q\"", "line\nline", "é", "<b>bold", ""]
 VALUES = ["a", "", "a b", "a\"b", "it's", "<", ">", "&", "a&amp;b", "</p>", "é€😀", " x ", "1", "x\ny", "a=b", "'\"'",
           "&lt;", "javascript:alert(1)", "#frag", "100%", "\\"]
 CLASS_VALUES = ["a", "a b", "  a   b ", "", " ", "a\tb", "x-1 y_2", "a a", "é", "a\nb ", "c<d", "q\"r"]
@@ -267,8 +267,8 @@ def gen_elem(rng, depth, dyn_p, in_svg=False):
     pool = TEXTAREA_TEXTS if tag == "textarea" else RAW_TEXTS
     ch = [gen_text(rng, dyn_p, pool) for _ in range(pick(rng, [0, 1, 1, 2, 3]))]
     ch = [c for c in ch if not (c[0] == "b" and c[1] == "")]
-    if "</" in "".join(c[1] for c in ch):
-        ch = ch[:1]
+    while "</" in "".join(c[1] for c in ch):
+        ch = ch[:-1]
     return ["e", tag, gen_attrs(rng, tag, "html", dyn_p), ch]
 
 
@@ -290,7 +290,7 @@ def gen_template(rng):
 
 
 def gen_component_template(rng):
-    inner = gen_children(rng, 2, pick(rng, [0.0, 0.2]))
+    inner = gen_children(rng, 2, pick(rng, [0.0, 0.2])) + [["e", "b", [], [["t", "w"]]]]
     if rng.random() < 0.6:
         return [["e", "div", [], [["c", "Wrap", inner], ["t", pick(rng, TEXTS)]]]]
     return [["e", "p", [["p", "id", ["lit", "k"]]], [["c", "Label", pick(rng, [x for x in TEXTS if x])], ["e", "b", [], [["t", "z"]]]]]]
